@@ -34,7 +34,7 @@ ASSUMPTIONS = ["the (ck, ns) tWR entries of litedram/modules.py are the datashee
                "lib/jedec_mr.py register layouts (written from the JEDEC standards, cross-checked against test/reference/*_init.*)",
                "DRAM clock period = 1/(nphases * controller clock) for every PHY of the repository",
                "controller write-to-precharge budget in DRAM clocks = (ceil(cwl/n) + tWR + tCCD)*n - (cwl + burst clocks) (bankmachine.py precharge_time)",
-               "DDR2 has no CWL register field: derived WL = AL + CL - 1 must not exceed phy.cwl (a larger phy.cwl only makes the controller wait longer)",
+               "DDR2 has no CWL register field: derived WL = AL + CL - 1 must equal phy.cwl (the PHY places the write data with it); only for the Spartan-6 half-rate PHY, which declares no cwl for DDR2, a larger value is accepted (it then only lengthens the controller's write-to-precharge wait)",
                "RPC DRAM excluded (no JEDEC reference)", "the RCD control words / electrical settings are checked for field integrity only"]
 
 REQUIRED_CLASSES = ["RDIMM", "clam-shell", "WR at a table boundary", "CL/CWL from PHY-specific table or user",
@@ -662,7 +662,13 @@ def evaluate(case):
         if phy.cwl < st["cwl"]:
             F("C17.cwl", keyp, "DDR2 write latency AL+CL-1 = %s exceeds the cwl=%s the controller operates with" % (st["cwl"], phy.cwl))
         elif phy.cwl > st["cwl"]:
-            classes.append("DDR2: phy.cwl above the DRAM's CL-1 (conservative)")
+            if case["phy"].startswith("S6Half"):
+                # this PHY declares no cwl for DDR2 (PhySettings falls back to cl; its data timing is hard-wired): only the controller's
+                # write-to-precharge wait uses the value, and a larger one is on the safe side
+                classes.append("DDR2: phy.cwl above the DRAM's CL-1 (conservative)")
+            else:
+                # the PHY places the write data with its cwl: later than the DRAM's AL+CL-1 means the DRAM samples before the data is there
+                F("C17.cwl", keyp, "DDR2 write latency AL+CL-1 = %s is below the cwl=%s the PHY drives the write data with" % (st["cwl"], phy.cwl))
     if st["al"] not in (0, None):
         F("C17.al", keyp, "additive latency %s programmed, the controller assumes AL=0" % st["al"])
     if memtype == "LPDDR5" and st.get("wck_ck_ratio") != V["ratio"]:
